@@ -2,10 +2,13 @@
 from __future__ import annotations
 
 import itertools
+
+import fixedint
 import time
 
 from architecture_simulator.isa.riscv import rv32i_instructions as I
 from architecture_simulator.simulation.riscv_simulation import RiscvSimulation
+from architecture_simulator.simulation.runtime_errors import InstructionExecutionException
 
 from vf.adapt import asm
 from vf.checks import c04
@@ -236,7 +239,137 @@ def overwrite_shard(shard):
     return p
 
 
+def exec_specs():
+    """Wide operands and boundary immediates of every mnemonic (the longest texts the views have to show)."""
+    out = []
+    for regs in ((31, 31, 31), (10, 11, 12), (1, 2, 3)):
+        a, b, c = regs
+        out += [(mn, a, b, c) for mn in R]
+        for imm in (-2048, -1, 2047, 0, 1365):
+            out += [(mn, a, b, imm) for mn in IALU + LOADS + ["jalr"] + STORES]
+        for sh in (31, 0, 17):
+            out += [(mn, a, b, sh) for mn in SHIFTS]
+        for imm in (-4096, 4094, -2, 8):
+            out += [(mn, a, b, imm) for mn in BRANCHES]
+        for imm in (0, 1, 0x7FFFF, 0x80000, 0xFFFFF):
+            out += [(mn, a, imm, 0) for mn in ("lui", "auipc")]
+        for imm in (-0x100000, 0xFFFFE, 8, -2, 0):
+            out.append(("jal", a, imm, 0))
+        for csr in (0, 0x300, 0xFFF):
+            out += [(mn, a, csr, b) for mn in CSR] + [(mn, a, csr, 31) for mn in CSRI]
+    out += [("ecall", 0, 0, 0), ("ebreak", 0, 0, 0)]
+    return out
+
+
+_TEXT_OK: dict = {}
+
+
+def text_denotes(text, addr, want):
+    """Does `text`, assembled at `addr`, give the instruction `want` = (class name, fields[, jal target])?"""
+    key = (text, addr, want)
+    r = _TEXT_OK.get(key)
+    if r is None:
+        try:
+            sim = RiscvSimulation()
+            sim.load_program("addi x0, x0, 0\n" * (addr // 4) + text + "\n")
+            got = sim.state.instruction_memory.read_instruction(addr)
+            g = (type(got).__name__, asm.fields_full(got)) + ((got.abs_addr,) if type(got).__name__ == "JAL" else ())
+            r = None if g == want else f"{text!r} assembles at {addr} to {g}, the instruction there is {want}"
+        except Exception as e:  # noqa
+            r = f"{text!r} is rejected at {addr}: {type(e).__name__}: {e!r}"
+        _TEXT_OK[key] = r = (r,)
+    return r[0]
+
+
+def listing_again(texts):
+    """Re-assembling a printed listing reproduces the listing (texts: the listing of a program stored from address 0)."""
+    key = ("listing",) + texts
+    r = _TEXT_OK.get(key)
+    if r is None:
+        try:
+            sim = RiscvSimulation()
+            sim.load_program("\n".join(texts) + "\n")
+            again = tuple(t for _a, t, _s in sim.get_instruction_memory_entries())
+            r = None if again == texts else f"the listing {list(texts)} re-assembles to the listing {list(again)}"
+        except Exception as e:  # noqa
+            r = f"the listing {list(texts)} is rejected: {type(e).__name__}: {e!r}"
+        _TEXT_OK[key] = r = (r,)
+    return r[0]
+
+
+def exec_views(spec, mode, regval, at):
+    """Place the instruction (+ a neighbour), execute step by step; after every step the listing, the pipeline view's
+    instruction text and the text inside an execution error must still denote the stored instructions."""
+    specs = [("addi", 0, 0, 0)] * (at // 4) + [spec, ("addi", 5, 6, -7)]
+    want = {}
+    for i, sp in enumerate(specs):
+        o = build(sp, 4 * i)
+        want[4 * i] = (type(o).__name__, asm.fields_full(o)) + ((o.abs_addr,) if sp[0] == "jal" else ())
+    sim = RiscvSimulation(mode=mode)
+    sim.state.instruction_memory.write_instructions([build(sp, 4 * i) for i, sp in enumerate(specs)])
+    for k in range(1, 32):
+        sim.state.register_file.registers[k] = fixedint.UInt32(regval)
+    bad = []
+    five = mode == "five_stage_pipeline"
+
+    def look(when):
+        entries = sim.get_instruction_memory_entries()
+        for (a, _h), t, _s in entries:
+            d = text_denotes(t, a, want[a]) if a in want else f"listing shows an instruction at {a}"
+            if d:
+                bad.append(("listing", f"{when}: listing: {d}"))
+        d = listing_again(tuple(t for _a, t, _s in entries))
+        if d:
+            bad.append(("listing-fixpoint", f"{when}: {d}"))
+        vals = sim.get_riscv_five_stage_svg_update_values() if five else sim.get_riscv_single_stage_svg_update_values()
+        d = {i: v for i, _f, v in vals}
+        t, a = (d.get("InstructionMemoryInstrText"), d.get("InstructionReadAddressText")) if five else (d.get("instr-mem-instr-text"), d.get("instr-mem-read-addr-text"))
+        if t and a not in (None, "") and int(a) in want:
+            dd = text_denotes(t, int(a), want[int(a)])
+            if dd:
+                bad.append(("pipeline-view", f"{when}: pipeline view: {dd}"))
+
+    look("before execution")
+    for n in range(1, 9 if five else 4):
+        if bad or sim.is_done():
+            break
+        try:
+            sim.step()
+        except InstructionExecutionException as e:
+            if e.address in want:
+                dd = text_denotes(e.instruction_repr, e.address, want[e.address])
+                if dd:
+                    bad.append(("error-message", f"error message after step {n}: {dd}"))
+            look(f"after the failing step {n}")
+            break
+        except Exception:  # noqa  (C13 decides which exceptions may escape)
+            break
+        look(f"after step {n}")
+    return bad
+
+
+def exec_shard(shard):
+    part, parts = shard
+    p = Partial()
+    for i, spec in enumerate(exec_specs()):
+        if i % parts != part:
+            continue
+        for mode in ("single_stage_pipeline", "five_stage_pipeline"):
+            for regval in (0x5000, 0):
+                for at in (0, 8):
+                    p.evaluations += 1
+                    p.nontrivial += 1
+                    p.counters["views-while-executing"] += 1
+                    for f, d in exec_views(spec, mode, regval, at)[:1]:
+                        p.violation(dict(oracle="views-while-executing", field=f, mnemonic=spec[0]), dict(kind="exec", spec=list(spec), mode=mode, regval=regval, at=at),
+                                    f"{spec} at {at}, {mode}, registers = {regval:#x}: {d}", size=(i, at, regval))
+    return p
+
+
 def replay(case):
+    if case["kind"] == "exec":
+        spec = tuple(case["spec"])
+        return [(dict(oracle="views-while-executing", field=f, mnemonic=spec[0]), d) for f, d in exec_views(spec, case["mode"], case["regval"], case["at"])[:1]]
     if case["kind"] == "overwrite":
         part = overwrite_shard(OVERWRITE_SPECS.index(tuple(case["a"])))
         return [(lst[0][1], lst[0][3]) for _k, (n, lst) in part.viol.items()]
@@ -264,7 +397,7 @@ def run(ctx):
                 "immediates per mnemonic; shifts: all 32 amounts; branches: all 4096 even 13-bit immediates per mnemonic; lui/auipc: 257-stride + boundaries "
                 "(all 2^20 in thorough); jal: boundary immediates at every address (all 2^20 even immediates in thorough); csr*: all 4096 csr numbers, all 32 "
                 "uimm; ecall, ebreak. Second clause: listing -> text -> load -> listing is a fixed point for the C04 layout corpus; and the listing shows what is stored now: "
-                "write A, list, overwrite in place with B, list, for every ordered pair of 12 instructions at three addresses. FENCE is excluded by the "
+                "write A, list, overwrite in place with B, list, for every ordered pair of 12 instructions at three addresses. Third clause (views while executing): every mnemonic with wide registers and boundary immediates is placed at two addresses and executed step by step in both modes (registers filled with a valid data address / with 0 so loads and stores fault): after every step each listing line, the instruction text of the pipeline view and the text inside an execution error must assemble at that address to the stored instruction, and the listing must re-assemble to itself. FENCE is excluded by the "
                 "property. Non-trivial = instruction with a non-zero register or immediate.")
     t0 = time.time()
     shards = []
@@ -279,6 +412,10 @@ def run(ctx):
     part = pmap(overwrite_shard, list(range(len(OVERWRITE_SPECS))))
     ctx.space("listing-after-in-place-overwrite", part, t0, pairs=len(OVERWRITE_SPECS) ** 2, addresses=3)
     ctx.require("listing-after-in-place-overwrite")
+    t0 = time.time()
+    part = pmap(exec_shard, [(i, 32) for i in range(32)])
+    ctx.space("views-while-executing", part, t0, specs=len(exec_specs()), modes=2, register_fills=2, addresses=2)
+    ctx.require("views-while-executing")
     t0 = time.time()
     Ls = (1, 2)
     part = pmap(listing_fixpoint_shard, [(L, f) for L in Ls for f in range(len(c04.ALL_KINDS))])
